@@ -705,7 +705,8 @@ int main(int argc, char** argv)
                     // and the LAST event whose slots all fit below 2^64 (beyond it two events
                     // share a segment by construction: the disjointness claim ends there);
                     // slots == 1 would give the invalid id 2^64-1, so the largest valid id is used
-                    unsigned long long const ev_top = (1ull << 60) + 3;
+                    // (2^59+3 for 16 slots, where 2^60+3 would itself wrap)
+                    unsigned long long const ev_top = (1ull << (slots < 16 ? 60 : 59)) + 3;
                     unsigned long long const ev_last = std::min<unsigned __int128>(
                         (((unsigned __int128)1 << 64) / (unsigned)slots) - 1, ~0ull - 1);
                     events.push_back(ev_top);
